@@ -1224,13 +1224,24 @@ namespace bluetoe {
                     {
                         assert( read.buffer_size <= maximum_pdu_size );
 
+                        bool value_complete = true;
+
                         if ( first_ )
                         {
                             size_   = read.buffer_size + header_size;
                             first_  = false;
                         }
+                        else if ( read.buffer_size == max_data_size )
+                        {
+                            // The value filled the remaining room completely and might have been truncated. A truncated value
+                            // that has by coincidence the length of the other values must not be added to the list.
+                            std::uint8_t probe;
+                            auto more = attribute_access_arguments::read( &probe, &probe + 1, read.buffer_size, config_, security_, &server_ );
 
-                        if ( read.buffer_size + header_size == size_ )
+                            value_complete = !( attr.access( more, index ) == details::attribute_access_result::success && more.buffer_size != 0 );
+                        }
+
+                        if ( value_complete && read.buffer_size + header_size == size_ )
                         {
                             current_ = details::write_handle( current_, handle_index_mapping< Server >::handle_by_index( index ) );
                             current_ += static_cast< std::uint8_t >( read.buffer_size );
